@@ -421,7 +421,7 @@ class RefSim:
                             f = inflow * 0.0
                         else:
                             with np.errstate(all="ignore"):
-                                f = inflow * p / s if s != 0 else inflow * math.nan
+                                f = inflow * (p / s) if s != 0 else inflow * math.nan
                     if grouped:
                         f = np.asarray(f, dtype=float)
                         bins[i] = f
